@@ -171,3 +171,49 @@ def path_lines(fn, block_ids, upto=None):
                 out.append("%s: %s" % (n.loc, n.text()[:100]))
                 break
     return out
+
+
+class Probe(object):
+    """A stand-in for Check that only collects what a rule reports; used to run a rule on its positive example."""
+    def __init__(self):
+        self.violations = []
+        self.oks = 0
+        self.extra = {}
+
+    def rule(self, *a, **k):
+        pass
+
+    def instance(self, *a, **k):
+        pass
+
+    def analysed(self, *a, **k):
+        pass
+
+    def exception(self, *a, **k):
+        pass
+
+    def note(self, *a, **k):
+        pass
+
+    def floor(self, *a, **k):
+        pass
+
+    def ok(self, *a, **k):
+        self.oks += 1
+
+    def violation(self, rule, unit, function, instance, loc, msg, path=None):
+        self.violations.append((rule, function, str(instance)))
+
+
+def must_fire(chk, rule, run, example, expect):
+    """Run `run(probe, program_of_example)`; the rule must report exactly the functions listed in `expect` (and none
+    of the others in the file).  Failing that the checker itself is broken (exit 2)."""
+    import os
+    from .facts import Program, AnalysisBroken, VERIF
+    prog = Program.load_example(os.path.join(VERIF, "examples", example))
+    probe = Probe()
+    run(probe, prog)
+    got = sorted(set(f for (r, f, i) in probe.violations if r == rule))
+    if got != sorted(expect):
+        raise AnalysisBroken("rule %s on its example %s reported %s, expected %s" % (rule, example, got, sorted(expect)))
+    chk.note("%s: positive example %s reported as expected (%s)" % (rule, example, ", ".join(got)))
